@@ -174,30 +174,46 @@ pub async fn changes(cx: &mut Context<'_>, command: &ChangesCommand) -> Result<A
 
 /// `DESCRIBE TRANSACTION`.
 pub async fn transaction(cx: &mut Context<'_>, tx_id: &str) -> Result<Json, KipError> {
-    let row = cx.store.find_transaction(tx_id).await?.ok_or_else(|| {
+    let unknown = || {
         KipError::new(
             KipErrorCode::TransactionUnknown,
             format!("this Nexus has no transaction {tx_id:?}"),
         )
-    })?;
+    };
+    let row = cx
+        .store
+        .find_transaction(tx_id)
+        .await?
+        .ok_or_else(unknown)?;
+    // Transaction ids are guessable (`<space>#<seq>`), so the same narrowing
+    // as `HISTORY` and `CHANGES` applies: hidden change records are dropped,
+    // and a transaction with nothing left to show does not exist for this
+    // caller (§103).
+    let mut rows = vec![row];
+    visible_changes(cx, &mut rows).await;
+    let row = rows.pop().ok_or_else(unknown)?;
     Ok(entry(&row, None))
 }
 
 /// `DESCRIBE TRANSACTION BY IDEMPOTENCY KEY` — the lost-response lookup (§80.4).
 pub async fn transaction_by_key(cx: &mut Context<'_>, key: &str) -> Result<Json, KipError> {
+    let unknown = || {
+        KipError::new(
+            KipErrorCode::TransactionUnknown,
+            format!(
+                "no transaction in this Space committed under the idempotency key {key:?}; \
+                 the original request never committed, so it is safe to send again"
+            ),
+        )
+    };
     let row = cx
         .store
         .find_transaction_by_idempotency_key(&cx.space, key)
         .await?
-        .ok_or_else(|| {
-            KipError::new(
-                KipErrorCode::TransactionUnknown,
-                format!(
-                    "no transaction in this Space committed under the idempotency key {key:?}; \
-                     the original request never committed, so it is safe to send again"
-                ),
-            )
-        })?;
+        .ok_or_else(unknown)?;
+    let mut rows = vec![row];
+    visible_changes(cx, &mut rows).await;
+    let row = rows.pop().ok_or_else(unknown)?;
     Ok(entry(&row, None))
 }
 
